@@ -186,7 +186,7 @@ package syncx
 //@ lockinv (manager *ResourceManager) lock
 //@ guarded_by resources
 //@ func (manager *ResourceManager) GetResource closure 0
-//@   property C07
+//@   property C07 C02
 //@   flag callbacks_noheap
 //@   results val, err
 //@   ensures calls(create) <= old(calls(create)) + 1
